@@ -12,6 +12,11 @@ def showVerdicts (vs : List StepVerdict) : String :=
   " ".intercalate (vs.map fun v =>
     s!"{showB v.ok},{v.chosen},{showRat v.chosenN2},{showB v.chosenMasked},{v.bestOff},{showB v.uniq}")
 
+def showVerdictsV (vs : List StepVerdict) : String :=
+  " ".intercalate (vs.map fun v =>
+    s!"{showB v.ok},{v.chosen},{showRat v.chosenN2},{showB v.chosenMasked},{v.bestOff},{showB v.uniq}," ++
+      ":".intercalate (v.candN2.map showRat))
+
 def handle : P String := do
   let cmd ← tok
   match cmd with
@@ -27,6 +32,11 @@ def handle : P String := do
     if !cfg.inDomain then pure "domain" else
     let (st, vs) := replay (fun c => costs.getD c 0) cfg.mask δ B tr
     pure s!"ok {showNats st.p.toList} | {showVerdicts vs}"
+  | "replayv" => do
+    let B ← mat; let costs ← listOf rat; let cfg ← gqrCfg; let δ ← rat; let tr ← listOf nat
+    if !cfg.inDomain then pure "domain" else
+    let (st, vs) := replay (fun c => costs.getD c 0) cfg.mask δ B tr
+    pure s!"ok {showNats st.p.toList} | {showVerdictsV vs}"
   | "rank" => do
     let B ← mat; let costs ← listOf rat; let cfg ← gqrCfg
     if !cfg.inDomain then pure "domain" else
